@@ -7,6 +7,7 @@ import (
 	"sort"
 
 	sdk "github.com/cosmos/cosmos-sdk/types"
+	"github.com/lavanet/lava/v5/utils"
 	planstypes "github.com/lavanet/lava/v5/x/plans/types"
 	subscriptiontypes "github.com/lavanet/lava/v5/x/subscription/types"
 
@@ -39,6 +40,9 @@ type subModel struct {
 	left uint64
 	plan string
 	fut  *futModel
+	// next month boundary as the model computes it (one calendar month after the purchase / upgrade / last
+	// boundary, utils.NextMonth): the implementation must process an expiry by then, timers or not
+	expiry int64
 }
 
 type futModel struct {
@@ -125,7 +129,7 @@ func (m *SubMon) AfterTx(s *Sim, r *TxRes) {
 	switch m.preKind {
 	case "new":
 		m.News++
-		m.model[buy.Consumer] = &subModel{left: buy.Duration, plan: buy.Index}
+		m.model[buy.Consumer] = &subModel{left: buy.Duration, plan: buy.Index, expiry: utils.NextMonth(ctx.BlockTime()).UTC().Unix()}
 	case "extend":
 		m.Extends++
 		if md != nil {
@@ -136,6 +140,7 @@ func (m *SubMon) AfterTx(s *Sim, r *TxRes) {
 		if md != nil {
 			md.left = buy.Duration
 			md.plan = buy.Index
+			md.expiry = utils.NextMonth(ctx.BlockTime()).UTC().Unix()
 		}
 	case "advance":
 		m.Advances++
@@ -248,6 +253,18 @@ func (m *SubMon) AfterBlock(s *Sim, b *BlockRes) {
 	ctx := s.TS.Ctx
 	ks := s.TS.Keepers
 	now := uint64(b.Time.UTC().Unix())
+	processed := map[string]bool{}
+	defer func() {
+		// a live subscription whose month boundary (as the model computes it) has passed must have had its expiry
+		// processed in this block at the latest
+		for _, c := range sortedKeys(m.model) {
+			md := m.model[c]
+			if !processed[c] && md.expiry != 0 && md.expiry <= int64(now) {
+				m.v("C12", "month-boundary-not-processed", "the subscription's month boundary passed but no expiry was processed", fmt.Sprintf("block %d consumer %s: boundary %d, block time %d, months left %d", b.Height, c, md.expiry, now, md.left), s, b.Step)
+				md.expiry = 0 // report once
+			}
+		}
+	}()
 	// balances as they were before this block's timers ran are not observable any more; the model
 	// only needs "could the creator pay": recompute from the balance after the block plus what the
 	// model itself charged (renewals are the only debits of a creator inside timer callbacks).
@@ -290,6 +307,10 @@ func (m *SubMon) AfterBlock(s *Sim, b *BlockRes) {
 				m.Removals++
 			}
 		}
+		if md3 := m.model[t.consumer]; md3 != nil {
+			md3.expiry = utils.NextMonth(b.Time).UTC().Unix()
+		}
+		processed[t.consumer] = true
 		m.Run.Nontrivial(fmt.Sprintf("%s:expiry:%s:%d", m.Hist, t.consumer, b.Height))
 		m.compare(s, t.consumer, fmt.Sprintf("after month expiry in block %d", b.Height), b.Step)
 		if md2 := m.model[t.consumer]; md2 != nil {
